@@ -13,6 +13,8 @@ def run(chk, tier, replay=None):
     quick = tier == "quick"
     # (1) exhaustive evaluation of every order-hint distance helper (real code, white-box)
     c22_reldist.run_reldist(chk, tier)
+    if "exhaustive" in chk.extra:  # the helper enumeration is exhaustive, the long-stream part is sampled
+        chk.extra["reldist_exhaustive"] = chk.extra.pop("exhaustive")
     # (2) long streams: C01 oracle (decodable, recon == decode) + C03 oracle (count, order, pts, EOS)
     lengths = [300] if quick else [300, 2200, 4300]
     cases = []
